@@ -68,9 +68,6 @@ SPEC = {
     ],
 }
 
-MODELS = ("two-finger", "skip-ahead", "leader-follower-a", "leader-follower-b")
-
-
 # ------------------------------------------------------------------------------------------
 # generation
 # ------------------------------------------------------------------------------------------
@@ -146,21 +143,18 @@ def generate(rng, tier, shard, nshards, mon):
                 idx += 1
     mon.exhaustive[f"isect-three-fibers-subsets-n{n3}"] = True
     if not quick:
-        # sampled three fibers over subsets of {0..2}: every 5th triple (not exhaustive)
+        # three fibers over subsets of {0..2}, complete
         s = _subsets(3)
         pairs = [(a, b) for a in s for b in s]
-        t = 0
         for p1 in pairs:
             for p2 in pairs:
                 for p3 in pairs:
-                    t += 1
-                    if t % 5:
-                        continue
                     if idx % nshards == shard:
                         yield {"kind": "isect", "outer": _outer_for(3, 1 + idx // nshards % 2, idx // 5),
                                "fibers": [[_leaf(p[0], k), _leaf(p[1], k + 1)] for k, p in enumerate((p1, p2, p3))],
-                               "groups": [[3], [1, 2], [2, 1]][idx % 3], "sys": "three-fibers-n3-sampled"}
+                               "groups": [[3], [1, 2], [2, 1]][idx % 3], "sys": "three-fibers-n3"}
                     idx += 1
+        mon.exhaustive["isect-three-fibers-subsets-n3"] = True
     # (d) systematic numSwaps: all ordered triples of non-empty subsets of {0..2} x radix x latency
     ne = [x for x in _subsets(3) if x]
     confs = [(r, l) for r in (2, 3, "inf") for l in (1, 3, "N")]
@@ -182,7 +176,7 @@ def generate(rng, tier, shard, nshards, mon):
                        "depth": 0, "radix": r, "latency": "N", "reval": 1 + idx % 5, "sys": "swaps-tiefree-n5"}
             idx += 1
     mon.exhaustive["numswaps-N-three-disjoint-lists-n5"] = True
-    nrand = (9000 if quick else 240000) // nshards
+    nrand = (9000 if quick else 600000) // nshards
     for _ in range(nrand):
         yield _random_case(rng)
 
@@ -522,14 +516,20 @@ def _run_isect(case, mon):
             continue
         multi = mode != "per-fiber" and n > 1
         # known-defect pattern, from the raw lists: a fiber that is not the last of its batch leaves a leftover row
+        # and the models' entry assertion (first rows of both traces belong to one fiber) is known to trip exactly
+        # when, in some batch, the first fiber with an a-row is not the first fiber with a b-row
         pattern = False
-        first_one_empty = False
+        assert_expected = False
         if multi:
             start = 0
             for g in groups:
                 batch = per[start:start + g]
                 if any(p["leftover"] for p in batch[:-1]):
                     pattern = True
+                fa = next((k for k, p in enumerate(batch) if p["rows_a"]), None)
+                fb = next((k for k, p in enumerate(batch) if p["rows_b"]), None)
+                if fa is not None and fb is not None and fa != fb:
+                    assert_expected = True
                 start += g
             if pattern:
                 mon.count("multi_fiber_batches_known_pattern")
@@ -554,13 +554,15 @@ def _run_isect(case, mon):
                 continue
             # two-finger / skip-ahead fed a batch of several fibers
             if exc is not None:
-                if pattern:
-                    mon.violation(f"{fam}:one-shot-vs-per-fiber:raised:{type(exc).__name__}",
-                                  f"{detail} raised {type(exc).__name__} (a non-final fiber of a batch leaves a leftover "
-                                  f"row): {exc}")
+                if isinstance(exc, AssertionError) and assert_expected:
+                    mon.violation(f"{fam}:one-shot-vs-per-fiber:raised:AssertionError",
+                                  f"{detail} raised AssertionError (a batch starts with a fiber in which exactly one "
+                                  f"operand is empty, so the first rows of the two traces belong to different fibers): {exc}")
                 else:
-                    mon.violation(f"{fam}:multi-fiber-batch:raised:{type(exc).__name__}:no-leftover-row",
-                                  f"{detail} raised {type(exc).__name__} although no fiber leaves a leftover row: {exc}")
+                    mon.violation(f"{fam}:multi-fiber-batch:raised:{type(exc).__name__}:"
+                                  + ("leftover-row-present" if pattern else "no-leftover-row"),
+                                  f"{detail} raised {type(exc).__name__} although the first rows of both traces belong to "
+                                  f"the same fiber in every batch: {exc}")
                 continue
             if pattern:
                 mon.check(total == want[name], f"{fam}:one-shot-vs-per-fiber",
